@@ -12,6 +12,7 @@ labelled the node is irrelevant.
 """
 from __future__ import annotations
 
+import typing
 import z3
 
 from pyvc.core import (SV, SBool, SInt, SSeq, SDict, Obj, Val, VNone, BoolS, IntS, Cls, to_val, to_int, cls_of, sub, cls_const,
@@ -109,6 +110,7 @@ def factory_obligations(chk, mod, fname, noop):
               name="every-earlier-node-is-bound-under-its-type-and-its-unwrapped-type"),
             Q([Val], lambda key: z3.Implies(d.has(key), is_routine_for(to_val(d.get(key)), unwrap_f(key))),
               name="every-binding-is-a-routine-for-the-key's-unwrapped-type"),
+            d.has(to_val(typing.Any)),      # members annotated Any always find a routine (pre-bound pass-through; C15)
         ]
     I.loop_specs[(func, 0)] = LoopSpec("nodes", havoc, inv)
 
@@ -283,8 +285,9 @@ def forwardref_obligations(chk):
     def mk(I, path):
         cls_const(str)
         ref = path.fresh("ref")
-        st["cur"] = {"ref": ref, "sets": []}
-        return [SV(ref)], {"module": SV(path.fresh("module"))}, st["cur"]
+        fa, fc = path.fresh("is_argument", BoolS), path.fresh("is_class", BoolS)
+        st["cur"] = {"ref": ref, "sets": [], "flags": (fa, fc)}
+        return [SV(ref)], {"module": SV(path.fresh("module")), "is_argument": SBool(fa), "is_class": SBool(fc)}, st["cur"]
     for pi, (path, out, obls, writes, cur) in enumerate(I.run_function(func, mk)):
         hy = path.hyps + class_axioms()
         # a reference created from the type itself is pinned to that type; one created from text is left to be evaluated
@@ -302,6 +305,16 @@ def forwardref_obligations(chk):
             # the module handed to ForwardRef is what _resolve_module_name returned
             chk.add(Ob(func, "module-is-the-resolved-module", f"p{pi}", hy,
                        z3.BoolVal(any("resolve_module" in str(c) for c in rm_args)), {"result": str(r)[:200]}))
+            # dict-key identity of a ForwardRef is (name, module[, pinned value]): none of them may depend on the flags, so the
+            # graph's cut reference (flags set) and the context's lookup reference (defaults) are the same key (C15 / C07)
+            from pyvc.ground import collect
+            flag_ids = {f.get_id() for f in cur["flags"]}
+            kw = sorted(["is_argument", "is_class", "module"])
+            name_t, module_t = rm_args[0], rm_args[1 + kw.index("module")]
+            dep = any(t.get_id() in flag_ids for part in (name_t, module_t) for t in collect([part]))
+            shape_ok = r.decl().name().startswith("ForwardRef") and len(rm_args) == 4
+            chk.add(Ob(func, "name-and-module-do-not-depend-on-is_argument-or-is_class", f"p{pi}", hy, z3.BoolVal(shape_ok and not dep),
+                       {"name": str(name_t)[:120], "module": str(module_t)[:120]}))
     # _resolve_module_name
     I2 = uw.make_interp(raising=False)
     func2 = "typelib.py.refs._resolve_module_name"
